@@ -409,7 +409,7 @@ class Generator:
 
     def parse_block(self, block, rel, line0):
         """split a @fn/@const block into sections"""
-        sec = {"contract": [], "entry": [], "loop": {}, "loopbody": {}, "replace": [], "ret": None}
+        sec = {"contract": [], "entry": [], "loop": {}, "loopbody": {}, "replace": [], "ret": None, "arm": []}
         cur = ("contract", None)
         for k, ln in enumerate(block):
             lno = line0 + 1 + k
@@ -424,6 +424,12 @@ class Generator:
             if ln.startswith("@loop"):
                 cur = ("loop", int(ln.split()[1]))
                 sec["loop"].setdefault(cur[1], [])
+                continue
+            if ln.startswith("@arm"):
+                m = re.match(r"@arm\s+(\d+)\s+(\S+)\s*=>\s*(.*)$", ln)
+                if not m:
+                    raise GenError(f"{rel}:{lno}: malformed @arm")
+                sec["arm"].append((int(m.group(1)), m.group(2), m.group(3), lno))
                 continue
             if ln.startswith("@replace"):
                 m = re.match(r"@replace\s+(\d+)\s+/(.*?)/\s*=>\s*/(.*)/\s*$", ln)
@@ -536,6 +542,14 @@ class Generator:
                     raise GenError(f"{rel}:{lno}: anchor lost: fn {name} has {nloops} loops, spec addresses loop body {n}")
                 lp = f["loops"][n - 1]
                 piece.insert(lp["body"][0] + 1, "\n" + self.join_lines(pairs), "loop-hint", order=0, spec_line=(rel, pairs[0][1] - 1))
+            # R6: declared replacement of whole match-arm bodies (float arms -> havoc)
+            for (nth, pat, new, l) in sec["arm"]:
+                if nth < 1 or nth > len(f["matches"]):
+                    raise GenError(f"{rel}:{l}: anchor lost: fn {name} has {len(f['matches'])} match expressions, spec addresses match {nth}")
+                arms = [a for a in f["matches"][nth - 1]["arms"] if a["pat"] == norm_ws(pat)]
+                if len(arms) != 1:
+                    raise GenError(f"{rel}:{l}: anchor lost: match {nth} of fn {name} has {len(arms)} arms with pattern {pat}")
+                piece.replace(tuple(arms[0]["body"]), new, "R6-arm")
             # declared literal rewrites inside the body
             body_txt = src.text[body_s:body_e].decode()
             for (nth, lit, new, l) in sec["replace"]:
@@ -622,7 +636,8 @@ class Generator:
             # `: T = EXPR;`  ->  `: T ensures ... { EXPR }`
             ty_end = it["ty"][1]
             ex_s, ex_e = it["expr"]
-            piece.replace((ty_end, ex_s), "\n" + contract + "\n{ ", "R4-contract")
+            entry = ("\n" + self.join_lines(sec["entry"]) + "\n") if sec["entry"] else ""
+            piece.replace((ty_end, ex_s), "\n" + contract + "\n{ " + entry, "R4-contract")
             piece.replace((ex_e, it["span"][1]), " }", "R4-close")
             # loops inside the initialiser
             # (index them by re-parsing the expression as a fn body)
